@@ -53,16 +53,21 @@ def parseReq (j : Json) : Req :=
     "{\"name\":" ++ jsonStrLit ((itemName b).getD "") ++ ",\"count\":" ++ toString (((b.getObjVal? "count").toOption.bind (·.getInt?.toOption)).getD 0) ++ "}"
   let name := parsed.bind itemName
   let count := (parsed.bind fun b => (b.getObjVal? "count").toOption.bind (·.getInt?.toOption)).getD 0
+  -- Employee{name required; dept required + member of the generated dept_enum validator}
+  let isEmployee := jstrD j "bodyType" = "Employee"
+  let dept := (parsed.bind fun b => (b.getObjVal? "dept").toOption.bind (·.getStr?.toOption)).getD ""
+  let empOk := parsed.isSome && (name.map (!·.isEmpty)).getD false && ["eng", "r&d"].contains dept
+  let empText := "{\"name\":" ++ jsonStrLit (name.getD "") ++ ",\"dept\":" ++ jsonStrLit dept ++ "}"
   { method := jstrD j "method", segs := segs, query := q,
     headers := (objEntries ((j.getObjVal? "headers").toOption.getD Json.null)).map fun (k, v) => (k, v.getStr?.toOption.getD ""),
     form := (objEntries ((j.getObjVal? "form").toOption.getD Json.null)).filterMap fun (k, v) =>
       match v with | .arr xs => xs[0]?.map fun x => (k, x.getStr?.toOption.getD "") | _ => none,
     hasBody := !body.isEmpty,
-    bodyOk := (match parsed with
+    bodyOk := if isEmployee then empOk else (match parsed with
       | some (.arr xs) => xs.toList.all fun x => ((itemName x).map (!·.isEmpty)).getD false     -- every element is validated
       | some _ => (name.map (!·.isEmpty)).getD false
       | none => false),
-    body := (match parsed with
+    body := if isEmployee then empText else (match parsed with
       | some (.arr xs) => "[" ++ " ".intercalate (xs.toList.map itemText) ++ "]"
       | _ => "{\"name\":" ++ jsonStrLit (name.getD "") ++ ",\"count\":" ++ toString count ++ "}"),
     deny := strList j "deny" }
